@@ -10,7 +10,11 @@ RULE = (
     'One case = one scenario + one interleaving. Scenario (seeded): 2-5 successive containers of one instance '
     '(shapes move / same / pingpong / same3 / move-stay / stay-move / random, or two instances handing on one '
     'identity) on two hosts, 0-2 endpoints, optional identity; client actions put(c) and del(c) partially ordered '
-    '(put(c_i) before put(c_i+1) and before del(c_i); del(c_i) and put(c_i+1) unordered); 0-2 auxiliary calls '
+    '(put(c_i) before put(c_i+1) and before del(c_i); del(c_i) and put(c_i+1) unordered); in 40% of the two-instance '
+    'scenarios with an identity group the first instance holds identity 0 and the second is a surplus instance without an '
+    'identity (registered under the group\'s placeholder node), the holder\'s runtime cleans its identity registration up '
+    '(it may touch its own identity node only) and another runtime registers a further identity-less instance through '
+    'EndpointPresence under its own session (it may not rewrite a node another session holds); 0-2 auxiliary calls '
     '(EndpointPresence.unregister_running/_endpoints/_identity, presence.kill_node, trace.app.zk._unschedule; run '
     'atomically); a budget of 0-2 session expiries and 0-1 process crashes that keep the session. Interleaving: '
     'two REAL PresenceResourceService processes (two hostnames, two sessions of the in-memory ZooKeeper) behind the '
